@@ -50,12 +50,13 @@ PT = TR + ":PteraTransformer."
 VISITORS = [PT + n for n in ("should_instrument", "_interact", "standalone_interaction", "delimit", "make_interaction", "visit_body",
                              "generate_interactions", "visit_FunctionDef", "visit_For", "visit_ExceptHandler", "visit_NamedExpr",
                              "visit_AnnAssign", "visit_Assign", "visit_AugAssign", "visit_Import", "visit_ImportFrom", "visit_Return",
-                             "visit_Yield", "_ann", "_get", "_set", "_wrap_call")] + [TR + ":_gensym"]
+                             "visit_Yield", "visit_YieldFrom", "_ann", "_get", "_set", "_wrap_call")] + [TR + ":_gensym"]
 
 LIB = {
     "proceed": ("__ptera_proceed", "P"), "globals": ("__ptera_globals", "G"), "ABSENT": ("__ptera_ABSENT", "A"),
     "Key": ("__ptera_Key", "K"), "get_tags": ("__ptera_get_tags", "T"), "self": ("_ptera__self", None),
     "frame": ("__ptera_frame", None), "enter_tag": ("__ptera_enter_tag", "E"), "exit_tag": ("__ptera_exit_tag", "X"),
+    "yielding": ("__ptera_yielding", "Y"), "delegating": ("__ptera_delegating", "D"),
 }
 
 
@@ -526,7 +527,7 @@ def u_visit_return(c):
         c.prove("bare-return/value-event-reports-None", got == exp, only=["C06"])
 
 
-@unit("visit_Yield", ["C01", "C06", "C04"], VISITORS, replay=_replay_native("visit_Yield"))
+@unit("visit_Yield", ["C01", "C06", "C04", "C09", "C05", "C02", "C07"], VISITORS, replay=_replay_native("visit_Yield"))
 def u_visit_yield(c):
     """yield E -> interact('#receive', None, enter_tag, (yield interact('#yield', None, exit_tag, visit(E), True)), True):
     one #yield event with the yielded value, then on resumption one #receive with the sent value."""
@@ -548,10 +549,18 @@ def u_visit_yield(c):
     if dy:
         exp.append(("#yield", None, PE.dump(ast.Name(id="__ptera_exit_tag", ctx=ast.Load())), PE.dump(parse_expr(val)), True))
     if dr:
-        inner = ast.Yield(value=PE.events([out])[0].call if dy else parse_expr(val))
+        # the value received is what the yield gives back: the yield itself is done by the frame's helper (R17)
+        inner = ast.YieldFrom(value=ast.Call(func=ast.Name(id="__ptera_yielding", ctx=ast.Load()),
+                                             args=[ast.Name(id="__ptera_frame", ctx=ast.Load()), PE.events([out])[0].call if dy else parse_expr(val)], keywords=[]))
         exp.append(("#receive", None, PE.dump(ast.Name(id="__ptera_enter_tag", ctx=ast.Load())), PE.dump(inner), True))
     c.prove("yield/#yield-then-#receive-with-tags", got == exp, note=f"{got} vs {exp}", only=["C06"])
     c.prove("yield/output-compiles", instantiate_and_compile([ast.Expr(out)]) is None, only=["C01"])
+    # every yield of an instrumented function goes through the frame (whatever is instrumented): that is how the frame knows that the
+    # generator is suspended, and puts the caller's handlers back meanwhile (C09)
+    ys = [x for x in ast.walk(out) if isinstance(x, (ast.Yield, ast.YieldFrom))]
+    c.prove("yield/the-frame-does-the-yield", len(ys) == 1 and isinstance(ys[0], ast.YieldFrom) and isinstance(ys[0].value, ast.Call)
+            and PE.dump(ys[0].value.func) == PE.dump(ast.Name(id="__ptera_yielding", ctx=ast.Load())) and len(ys[0].value.args) == 2
+            and PE.dump(ys[0].value.args[0]) == PE.dump(ast.Name(id="__ptera_frame", ctx=ast.Load())), only=["C09", "C05", "C02", "C06", "C07"])
 
 
 # ---------------------------------------------------------------------------------------------
@@ -666,11 +675,13 @@ PASS_SCHEMAS = [
      [("a", None, None, "a", True), ("rest", None, None, "rest", True), ("v", None, None, "v", True), ("others", None, None, "others", True)]),
     ("match-as-and-or", "match __E1:\n    case str() as s:\n        __S1\n    case (p, q) | [p, q, _]:\n        __S2",
      [("s", None, None, "s", True), ("p", None, None, "p", True), ("q", None, None, "q", True)]),
+    # a delegation is done by the frame as well (R18): the generator is suspended at each item the delegate yields
+    ("yield-from", "r = yield from __E1", [("r", None, None, "(yield from __ptera_delegating(__ptera_frame, __VE1))", True)]),
     ("comprehension", "r = [__E1 for i in __E2 if __E3]", [("r", None, None, "[__VE1 for i in __VE2 if __VE3]", True)]),
 ]
 
 
-@unit("pass-through", ["C01", "C02", "C06"], VISITORS + [AST + ":NodeTransformer.generic_visit", AST + ":NodeVisitor.visit"], replay=_replay_native("pass-through"))
+@unit("pass-through", ["C01", "C02", "C06", "C09", "C05", "C07"], VISITORS + [AST + ":NodeTransformer.generic_visit", AST + ":NodeVisitor.visit"], replay=_replay_native("pass-through"))
 def u_passthrough(c):
     """Statement forms without a dedicated rule go through NodeTransformer.generic_visit (interpreted from the stdlib source):
     while / if / with / nested def / class / global / nonlocal / expression / del / raise / assert / lambda / comprehension."""
@@ -680,6 +691,11 @@ def u_passthrough(c):
     for e in evs:
         dec.setdefault((e[0], None), bool(c.choose(2, "instrument")))
     outs = check_schema(c, it, tr, dec, src, evs, label)
+    if label == "yield-from" and outs is not None:
+        ys = [x for o in outs for x in ast.walk(o) if isinstance(x, (ast.Yield, ast.YieldFrom))]
+        c.prove("yield-from/the-frame-does-the-delegation", len(ys) == 1 and isinstance(ys[0], ast.YieldFrom) and isinstance(ys[0].value, ast.Call)
+                and PE.dump(ys[0].value.func) == PE.dump(ast.Name(id="__ptera_delegating", ctx=ast.Load())) and len(ys[0].value.args) == 2
+                and PE.dump(ys[0].value.args[0]) == PE.dump(ast.Name(id="__ptera_frame", ctx=ast.Load())), only=["C09", "C05", "C02", "C06", "C07"])
     if label == "with-two-targets" and outs is not None and dec.get(("w", None)):
         # `with A as w, B as (p, q)`: w is bound BEFORE B is entered (the statement is equivalent to nested withs); its event must be
         # delivered at that moment -- if entering B raises, w was bound all the same
